@@ -477,6 +477,121 @@ def stream_sampleD(ctx, built, ntables, max_rows=80, name="S-sampleD"):
     return S
 
 
+def stream_sampleDS(ctx, built, ntables, max_rows=200, name="S-sampleDS"):
+    """as S-sampleD for tables the default strategy sub-samples (sampling.should_sample / sample_forest): the row sample picked by the derived
+    RNG and the sampled forest's own generator (a fresh Random(0)) are recorded; the model decides should_sample itself, builds the second
+    forest on the picked rows with the sampling parameters, measures and searches the plan there, and assembles the table from the full forest."""
+    import syndiffix.clustering.sampling as SMP
+    import syndiffix.synthesizer as SY
+    import plan_streams as PS
+    from syndiffix import Synthesizer
+    from syndiffix.clustering.strategy import DefaultClustering
+    R = ctx.rng
+    S = ctx.stream(name, "typed tables of 4..6 columns and 60..200 rows x DefaultClustering(sample_size 5..30, main_column none/any, max_weight 1.5..15, merge_threshold, "
+                   "solver_alpha): should_sample decided by the model; when it says yes the model builds the sampled forest on the recorded row sample (sampling "
+                   "suppression parameters, no count noise), measures entropies and dependence there, searches the plan on the sampled forest's recorded generator and "
+                   "assembles the table from the full forest on the main RNG; compared with the real Synthesizer: whether it sampled, the entropies the solver saw (bit for bit), the cluster plan, the column "
+                   "order and every value; non-trivial = the table was sub-sampled, distinct by input")
+
+    class RecDefault(DefaultClustering):
+        def build_clusters(self, forest):
+            main = TS.RecRandom(); main.setstate(forest.unsafe_rng.getstate()); main.log = []
+            forest.unsafe_rng = main; self.rec_main = main
+            return super().build_clusters(forest)
+
+    for ti in range(ntables):
+        t = gen_typed_table(R, max_rows=R.choice([60, 110, 160, max_rows]), ncols=R.choice([4, 5, 5, 6, 6]), min_rows=60, params=R.choice(["random", "default", "default"]))
+        # should_sample holds iff rows * (d - 3) > 2 * d * sample_size (up to the integer division): mostly sizes below that limit, sometimes the
+        # sizes around it (the inequality itself), sometimes any
+        _n, _d = t["n"], len(t["df"].columns)
+        _lim = _n * (_d - 3) // (2 * _d)
+        ssize = R.choice([x for x in (5, 8, 12, 20, 30) if x < _lim] or [5])
+        if R.random() < 0.25: ssize = max(1, _lim + R.choice([-1, 0, 0, 1]))
+        elif R.random() < 0.1: ssize = R.choice([5, 8, 12, 20, 30, _n, _n + 1])
+        ncols = len(t["df"].columns)
+        mainc = R.choice([None, None, R.randrange(ncols)])
+        mw = R.choice([1.5, 2.0, 3.0, 15.0]); mt = R.choice([0.1, 0.1, 0.3]); alpha = R.choice([1e-2, 1e-2, 0.05])
+        strat = RecDefault(main_column=mainc, sample_size=ssize, max_weight=mw, merge_threshold=mt, solver_alpha=alpha)
+        samp = {}
+        orig_sf = SMP.sample_forest
+        def rec_sample_forest(forest, sample_size):
+            # the derived generator that picks the rows, and the sampled forest's own generator (plan search), both recorded
+            def derive():
+                r = TS.RecRandom(forest.unsafe_rng.random()); samp["pick"] = r; return r
+            forest.derive_unsafe_rng = derive
+            try:
+                sf = orig_sf(forest, sample_size)
+            finally:
+                del forest.derive_unsafe_rng
+            pr = TS.RecRandom(); pr.setstate(sf.unsafe_rng.getstate()); pr.log = []
+            sf.unsafe_rng = pr; samp["plan"] = pr
+            return sf
+        SMP.sample_forest = rec_sample_forest
+        try:
+            try:
+                convs, data, F, kind, ft = prepare(t)
+                syn = Synthesizer(t["df"], pids=t["pids"], anonymization_params=t["ap"], bucketization_params=t["bp"], clustering=strat)
+            except RecursionError:
+                continue
+        finally:
+            SMP.sample_forest = orig_sf
+        main = strat.rec_main
+        picked = [e[1] for e in samp["pick"].log if e[0] == "sample"] if "pick" in samp else []
+        picked = list(picked[0]) if picked else []
+        recs, cap = [], {}
+        def derive():
+            r = TS.RecRandom(main.random()); recs.append(r); return r
+        syn.forest.derive_unsafe_rng = derive
+        orig_bt = SY.build_table
+        def cap_bt(*a, **k):
+            rows, comb = orig_bt(*a, **k); cap["rows"] = rows; cap["comb"] = comb; return rows, comb
+        SY.build_table = cap_bt
+        err = None
+        try:
+            try:
+                syn.sample()
+            except (IndexError, ZeroDivisionError, ValueError) as e:
+                err = type(e).__name__
+        finally:
+            SY.build_table = orig_bt
+        cl = syn.clusters
+        key = (repr(t["df"].values.tolist()), repr(t["pids"].values.tolist()) if t["pids"] is not None else None, repr(t["ap"]), repr(t["bp"]), mainc, mw, mt, alpha)
+        if err is not None or "rows" not in cap:
+            S.count(key, False, {"table": typed_summary(t), "skipped": err}, tag="skipped")
+            continue
+        parts = [f"{ncols} " + " ".join(conv_tok(c) for c in syn.column_convertors),
+                 " ".join("1" if b else "0" for b in syn.column_is_integral),
+                 ("-" if mainc is None else str(mainc)) + f" {f2b(mw)} {f2b(mt)} {f2b(alpha)} {ssize}",
+                 " ".join(_draw_toks(main.log)),
+                 " ".join(str(i) for i in picked),
+                 " ".join(_draw_toks(samp["plan"].log)) if "plan" in samp else ""]
+        for k in range(0, len(recs) - 1, 2):
+            parts.append(" ".join(str(e[3]) for e in recs[k].log if e[0] == "randint"))
+            parts.append(" ".join(_draw_toks(recs[k + 1].log)))
+        req = "sampleDS " + " | ".join(parts)
+        exp = [f"sampled {1 if 'plan' in samp else 0}", "entropy " + " ".join(f2b(float(e)) for e in syn.entropy_1dim), "clusters " + PS.clusters_str(cl), "cols " + " ".join(str(c) for c in cap["comb"])] + \
+              [" ".join(cell_tok((v, 0.0)).rsplit(":", 1)[0] for v in row) for row in cap["rows"]] + ["left 0"]
+        S.count(key + (ssize,), "plan" in samp,
+                {"table": typed_summary(t), "main": mainc, "max_weight": mw, "sample_size": ssize, "sampled": "plan" in samp, "clusters": PS.clusters_str(cl), "rows": len(cap["rows"])},
+                tag=f"{ncols}cols/{1 + len(cl.derived_clusters)}cl/" + ("sampled" if "plan" in samp else "not-sampled"))
+        if built:
+            # every other table goes to the model as the typed table itself (convertors fitted and columns normalised in the model)
+            rl = raw_lines(t, F, kind) if ti % 2 == 1 else None
+            if rl is not None:
+                got = TS.split_replies(drive(rl + ["sampleDS " + " | ".join(["="] + parts[1:])], timeout=900))
+            else:
+                got = TS.split_replies(drive(TS.forest_lines(ft, F, kind) + [req], timeout=900))
+            g = got[-1] if got else ["<no reply>"]
+            g = [l if l.split(" ")[0] in ("sampled", "entropy", "clusters", "cols", "left", "ERR") else " ".join(tok.rsplit(":", 1)[0] for tok in l.split(" ")) for l in g]
+            if exp != g:
+                k = next((i for i, (a, b) in enumerate(zip(exp, g)) if a != b), min(len(exp), len(g)))
+                S.mismatch({"table": typed_summary(t), "main": mainc, "max_weight": mw}, g[k] if k < len(g) else "<missing>",
+                           exp[k] if k < len(exp) else "<missing>", f"(line {k} of {len(exp)}/{len(g)})")
+    ctx.obligation(f"correspondence {name} (default-strategy synthesis with sub-sampling: sampling decision, plan and table, exact)", "correspondence", S.d["mismatches"] == 0, f"{S.d['mismatches']} mismatches")
+    return S
+
+
+
 def stream_micro_refit(ctx, built, ntables, oracle=None, name="S-micro-refit"):
     """the same convertor objects fitted to a table, used, fitted again to a table in other units (apply_convertors re-fits the scalers in
     place) and used again: the second generation must decode with the second fit"""
